@@ -2102,3 +2102,458 @@ def strict_equal_unordered(ctx, rule):
              'order-insensitive' if ok else
              'objects are compared as ordered (key, value) sequences: two sides that add or replace the SAME JSON object written in a different key order no longer agree -- the merge '
              'reports a conflict (or under use-base silently drops the change), and the notebook differ reports a spurious replace', bad[0] if bad else fn)
+
+
+# ------------------------------------------------------------------------------------------------ round 6
+def _seq_roots(fn, expr, roots_of, defs, seen=None):
+    """which of the names in roots_of does expr derive from (through local assignments, loop targets and comprehension targets)?"""
+    from ..util import local_defs
+    seen = set() if seen is None else seen
+    comp_binds = {}
+    for n in ast.walk(fn):
+        if isinstance(n, (ast.ListComp, ast.SetComp, ast.GeneratorExp, ast.DictComp)):
+            for gen in n.generators:
+                for t in ast.walk(gen.target):
+                    if isinstance(t, ast.Name):
+                        comp_binds.setdefault(t.id, []).append(gen.iter)
+    out = set()
+
+    def flow(e):
+        """names whose VALUE (not index, not length) flows into e"""
+        if isinstance(e, ast.Name):
+            return [e]
+        if isinstance(e, (ast.Subscript, ast.Attribute, ast.Starred)):
+            return flow(e.value)
+        if isinstance(e, ast.Call):
+            if isinstance(e.func, ast.Name) and e.func.id in ('list', 'tuple', 'reversed', 'sorted', 'iter', 'enumerate', 'zip') and e.args:
+                return [x for a in e.args for x in flow(a)]
+            return []
+        if isinstance(e, ast.BinOp):
+            return flow(e.left) + flow(e.right)
+        if isinstance(e, ast.IfExp):
+            return flow(e.body) + flow(e.orelse)
+        if isinstance(e, (ast.Tuple, ast.List)):
+            return [x for a in e.elts for x in flow(a)]
+        return []
+    for n in flow(expr):
+        if n.id in roots_of:
+            out.add(n.id)
+        elif n.id not in seen:
+            seen.add(n.id)
+            for v, kind, st in defs.get(n.id, []):
+                out |= _seq_roots(fn, v, roots_of, defs, seen)
+            for it in comp_binds.get(n.id, []):
+                out |= _seq_roots(fn, it, roots_of, defs, seen)
+    return out
+
+
+@extra('C02', 'R02.20', 'the similarity predicate is order-sensitive (difflib ratio of (x, y) differs from (y, x)): wherever the sequence differs call it, or hand the two '
+       'sequences on together with it, the item/sequence of the FIRST document stays in the first position', 6)
+def r02_20(ctx, rule):
+    from ..util import local_defs, param_names
+    repo, cg = ctx.repo, ctx.cg
+
+    def seq_sig(f):
+        """(first, second, predicate parameter) if f takes two sequences and a predicate"""
+        ps = param_names(f)
+        pred = [p for p in ps if p in ('compare', 'compares', 'predicate', 'predicates')]
+        if len(ps) >= 3 and pred and ps[0] not in pred and ps[1] not in pred:
+            return ps[0], ps[1], pred[0]
+        return None
+    for fid, fn in sorted(repo.functions.items()):
+        if not fid.startswith('nbdime.diffing.'):
+            continue
+        sig = seq_sig(fn)
+        if not sig:
+            continue
+        p0, p1, pred = sig
+        defs = local_defs(fn)
+        pred_names = {pred} | {nm for nm, ds in defs.items() if any(_seq_roots(fn, v, {pred}, defs) for v, k, st in ds)}
+        for c in calls_in(fn):
+            pair = None
+            what = None
+            if isinstance(c.func, ast.Name) and c.func.id in pred_names and len(c.args) >= 2:
+                pair, what = (c.args[0], c.args[1]), 'predicate call'
+            else:
+                for kind, tgt in cg.resolve(c.func, fn):
+                    if kind == 'func' and tgt in repo.functions and tgt.startswith('nbdime.diffing.'):
+                        s2 = seq_sig(repo.functions[tgt])
+                        if s2 and not any(isinstance(a, ast.Starred) for a in c.args):
+                            gp = param_names(repo.functions[tgt])
+                            bound = dict(zip(gp, c.args))
+                            bound.update({k.arg: k.value for k in c.keywords if k.arg})
+                            if s2[0] in bound and s2[1] in bound and s2[2] in bound and _seq_roots(fn, bound[s2[2]], pred_names, defs):
+                                pair, what = (bound[s2[0]], bound[s2[1]]), 'hand-on to %s' % tgt.split(':')[1]
+            if pair is None:
+                continue
+            r0 = _seq_roots(fn, pair[0], {p0, p1}, defs)
+            r1 = _seq_roots(fn, pair[1], {p0, p1}, defs)
+            if not r0 or not r1:
+                ctx.inst(rule, fid, repo.norm(c), True, '%s: origin of the operands not determined' % what, c, nontrivial=False)
+                continue
+            ok = r0 == {p0} and r1 == {p1}
+            ctx.inst(rule, fid, repo.norm(c), ok,
+                     '%s: first operand from %s, second from %s' % (what, p0, p1) if ok else
+                     '%s: the first operand derives from %s and the second from %s -- the order-sensitive predicate is asked (y, x) where the rest of the '
+                     'algorithm (and its sanity check) means (x, y); a borderline pair is aligned one way and rejected the other' % (what, sorted(r0), sorted(r1)), c)
+
+
+@extra('C07', 'R07.16', 'in the chunk switch of the list merger, an inserted range is never handed to a decision that keeps base or takes the other side alone '
+       '(conflict/base, or local/remote with the insertion on the losing side): inserted cells and lines are applied, alone or next to the other side\'s change', 20)
+def r07_16(ctx, rule):
+    from ..consteval import reachable_arms, Abstract
+    from .c03 import chunk_switch_model
+    repo, cg = ctx.repo, ctx.cg
+    m = chunk_switch_model(repo, cg)
+    fid = 'nbdime.merging.generic:_merge_lists'
+    bad_calls = {}
+    for la, lp, ra, rp in m['combos']:
+        if not (la or ra):
+            continue
+        ct = '%s%s/%s%s' % (la, lp, ra, rp)
+        ev = m['make_ev'](la, lp, ra, rp)
+        used = set()
+        n_bad = 0
+        for idx, body in reachable_arms(ev, m['bigif']):
+            for st in body:
+                for c in ast.walk(st):
+                    if not (isinstance(c, ast.Call) and isinstance(c.func, ast.Attribute)):
+                        continue
+                    meth = c.func.attr
+                    if meth not in ('conflict', 'base', 'local', 'remote') or len(c.args) < 3:
+                        if meth in ('onesided', 'agreement', 'local_then_remote', 'remote_then_local', 'tryresolve', 'extend'):
+                            used.add(meth)
+                        continue
+                    ops = [ev.ev(a) for a in c.args[1:3]]
+                    has_a = [isinstance(o, Abstract) and 'A' in o.tag for o in ops]
+                    lost = (meth in ('conflict', 'base') and any(has_a)) or (meth == 'local' and has_a[1]) or (meth == 'remote' and has_a[0])
+                    if lost:
+                        bad_calls.setdefault(id(c), (c, []))[1].append(ct)
+                        n_bad += 1
+        if not n_bad:
+            ctx.inst(rule, fid, 'chunk type %s' % ct, True, 'insertions are applied (%s)' % ', '.join(sorted(used)) if used else 'no keep-base decision takes the insertion', m['bigif'])
+    for c, cts in bad_calls.values():
+        ctx.inst(rule, fid, repo.norm(c) + '  [chunk types %s]' % ', '.join(sorted(set(cts))), False,
+                 'an inserted range goes into a `%s` decision: the merged list keeps base / the other side there, and every source line of the inserted cells is '
+                 'missing from the merged notebook, not even inside conflict markers' % c.func.attr, c)
+
+
+_LAZY_CALLS = {'filter', 'map', 'zip', 'iter', 'reversed', 'enumerate', 'itertools.chain', 'itertools.islice', 'itertools.filterfalse', 'chain', 'islice'}
+
+
+def _command_path_functions(ctx, roots, prefixes):
+    repo, cg = ctx.repo, ctx.cg
+    reach = cg.reachable([r for r in roots if r in repo.functions])
+    return sorted(f for f in reach if f.startswith(prefixes))
+
+
+@extra('C08', 'R08.13', 'on the merge command path no one-shot iterator (generator expression, filter/map/zip object) is read at more than one place: what the first reader '
+       'consumes is gone for the second, so a status computed after a logging loop is computed over nothing', 3)
+def r08_13(ctx, rule):
+    from ..util import local_defs
+    repo = ctx.repo
+    fids = _command_path_functions(ctx, ['nbdime.nbmergeapp:main_merge', 'nbdime.nbmergeapp:main', 'nbdime.vcs.git.mergedriver:main'],
+                                   ('nbdime.nbmergeapp:', 'nbdime.vcs.git.mergedriver:', 'nbdime.utils:', 'nbdime.merging.notebooks:'))
+    for fid in fids:
+        fn = repo.functions[fid]
+        defs = local_defs(fn)
+        lazies = []
+        for nm, ds in defs.items():
+            if len(ds) != 1:
+                continue
+            v, kind, st = ds[0]
+            if kind != 'assign':
+                continue
+            if isinstance(v, ast.GeneratorExp) or (isinstance(v, ast.Call) and dotted(v.func) in _LAZY_CALLS):
+                lazies.append((nm, v, st))
+        if not lazies:
+            ctx.inst(rule, fid, 'no local is bound to a one-shot iterator', True, 'nothing to exhaust', fn, nontrivial=False)
+            continue
+        for nm, v, st in lazies:
+            loads = [n for n in ast.walk(fn) if isinstance(n, ast.Name) and n.id == nm and isinstance(n.ctx, ast.Load)]
+            in_loop = [n for n in loads if any(isinstance(a, (ast.For, ast.While)) and not any(x is st for x in ast.walk(a)) for a in repo.ancestors(n))]
+            ok = len(loads) <= 1 and not in_loop
+            ctx.inst(rule, fid, '%s = %s  [read at %d place(s)]' % (nm, repo.norm(v)[:60], len(loads)), ok,
+                     'read once' if ok else
+                     '`%s` is a one-shot iterator read at %d places (lines %s): after the first reader has consumed it, `any(%s)` / `if %s` / a second loop see nothing -- '
+                     'with the conflicts listed first, the exit status is computed over an exhausted iterator' % (nm, len(loads), sorted({n.lineno for n in loads}), nm, nm), st)
+
+
+@extra('C08', 'R08.14', 'no exception or clean-up handler on the merge command path removes, renames or truncates a file: a failure before the result is written leaves the '
+       'output location (an earlier result, the user\'s %A file) as it was', 3)
+def r08_14(ctx, rule):
+    repo, cg = ctx.repo, ctx.cg
+    fids = _command_path_functions(ctx, ['nbdime.nbmergeapp:main_merge', 'nbdime.nbmergeapp:main', 'nbdime.vcs.git.mergedriver:main'],
+                                   ('nbdime.nbmergeapp:', 'nbdime.vcs.git.mergedriver:', 'nbdime.utils:', 'nbdime.merging.notebooks:'))
+    DESTRUCTIVE = {'os.remove', 'os.unlink', 'os.rename', 'os.replace', 'os.truncate', 'os.rmdir', 'shutil.rmtree', 'shutil.move', 'os.ftruncate'}
+    n = 0
+    for fid in fids:
+        fn = repo.functions[fid]
+        for t in [x for x in walk_no_nested(fn) if isinstance(x, ast.Try)]:
+            blocks = [(h.body, 'except %s' % (ast.unparse(h.type) if h.type is not None else '<all>')) for h in t.handlers] + ([(t.finalbody, 'finally')] if t.finalbody else [])
+            for body, label in blocks:
+                n += 1
+                bad = []
+                for st in body:
+                    for c in ast.walk(st):
+                        if isinstance(c, ast.Call):
+                            names = {tt[1] for tt in cg.resolve(c.func, fn) if tt[0] == 'ext'} | {dotted(c.func) or ''}
+                            if names & DESTRUCTIVE or (isinstance(c.func, ast.Attribute) and c.func.attr in ('unlink', 'truncate', 'rename', 'replace') and not c.args == [] and
+                                                       dotted(c.func.value) not in ('str',) and c.func.attr in ('unlink', 'truncate')):
+                                bad.append(c)
+                            if (dotted(c.func) in ('open', 'io.open')) and len(c.args) > 1 and isinstance(const_val(c.args[1]), str) and 'w' in const_val(c.args[1]):
+                                bad.append(c)
+                ctx.inst(rule, fid, '%s handler at line %d' % (label, body[0].lineno if body else t.lineno), not bad,
+                         'no destructive file operation' if not bad else
+                         '%s in a %s handler: when the step before fails (serialising, opening the output), the file that was already at the output location is destroyed '
+                         'although no result was written' % (repo.norm(bad[0]), label), bad[0] if bad else t)
+    if n == 0:
+        ctx.inst(rule, 'nbdime.nbmergeapp:main_merge', 'no handlers on the command path', True, 'nothing to check', None, nontrivial=False)
+
+
+def _r_conflict_scan(ctx, rule):
+    """has_conflicted() is what every resolution entry guard asks (R05.2): it must answer from the CURRENT conflict flags of the decisions held."""
+    from ..util import local_defs
+    repo = ctx.repo
+    fid = 'nbdime.merging.decisions:MergeDecisionBuilder.has_conflicted'
+    fn = repo.func(fid)
+    defs = local_defs(fn)
+
+    def scans(e):
+        """e is truthy whenever some held decision has its conflict flag set"""
+        if isinstance(e, ast.Name):
+            ds = defs.get(e.id, [])
+            return bool(ds) and all(scans(v) for v, k, st in ds)
+        if isinstance(e, ast.Call) and dotted(e.func) in ('any',) and e.args and isinstance(e.args[0], (ast.GeneratorExp, ast.ListComp)):
+            g = e.args[0]
+            over = dotted(g.generators[0].iter) in ('self.decisions', 'self') and len(g.generators) == 1
+            elt_conf = isinstance(g.elt, ast.Attribute) and g.elt.attr == 'conflict' and not g.generators[0].ifs
+            filt_conf = isinstance(g.elt, ast.Constant) and g.elt.value is True and len(g.generators[0].ifs) == 1 and \
+                isinstance(g.generators[0].ifs[0], ast.Attribute) and g.generators[0].ifs[0].attr == 'conflict'
+            return over and (elt_conf or filt_conf)
+        if isinstance(e, ast.Call) and dotted(e.func) in ('bool', 'len') and e.args:
+            return scans(e.args[0])
+        if isinstance(e, ast.Call) and dotted(e.func) == 'self.get_conflicted' and not e.args:
+            return True
+        if isinstance(e, ast.Compare) and len(e.ops) == 1 and isinstance(e.ops[0], (ast.Gt, ast.NotEq)) and const_val(e.comparators[0]) == 0:
+            return scans(e.left)
+        if isinstance(e, ast.BoolOp):
+            vals = [scans(v) for v in e.values]
+            return any(vals) if isinstance(e.op, ast.Or) else all(vals)
+        return False
+    rets = [n for n in walk_no_nested(fn) if isinstance(n, ast.Return)]
+    if not rets:
+        raise AnalysisError('has_conflicted: no return')
+    for r in rets:
+        ok = r.value is not None and scans(r.value)
+        ctx.inst(rule, fid, repo.norm(r), ok,
+                 'true whenever a held decision is flagged conflicted' if ok else
+                 'the answer also depends on something other than the conflict flags of the decisions held (a cached "conflict registered" flag, a counter): decisions '
+                 'created with conflict=True by another route (local_then_remote(..., conflict=True), add_decision, extend) never raise it, every resolution guard then '
+                 'reads "nothing to resolve" and a use-base/use-local/use-remote merge returns with open conflicts', r)
+
+
+@extra('C10', 'R10.10', 'has_conflicted() answers from the current conflict flags of the decisions held, and from nothing else', 1)
+def r10_10(ctx, rule):
+    _r_conflict_scan(ctx, rule)
+
+
+@extra('C05', 'R05.12', 'has_conflicted() answers from the current conflict flags of the decisions held, and from nothing else', 1)
+def r05_12(ctx, rule):
+    _r_conflict_scan(ctx, rule)
+
+
+@extra('C11', 'R11.12', 'a removal the merge code builds by hand for an index taken from the decisions (an insertion index may equal len(base)) is backed by evidence that a base '
+       'item exists there: a bound test, or a test that some entry at the index patches or removes the item', 2)
+def r11_12(ctx, rule):
+    from ..util import local_defs, depends_on, truth_under
+    from ..cfg import CFG, cond_guards
+    from .. import mergefacts as mf
+    repo, cg = ctx.repo, ctx.cg
+    consts = mf.diffop_consts(repo)
+    EXIST = {consts.get('DiffOp.PATCH'), consts.get('DiffOp.REMOVERANGE')}
+    ADD = consts.get('DiffOp.ADDRANGE')
+
+    def filt_ops(fn, e, defs):
+        """ops selected by a list built as [x for x in D if x.op == OP] (through one local name); None if not of that form"""
+        if isinstance(e, ast.Name):
+            ds = [v for v, k, st in defs.get(e.id, []) if k == 'assign']
+            if len(ds) == 1:
+                return filt_ops(fn, ds[0], defs)
+            return None
+        if isinstance(e, ast.ListComp) and len(e.generators) == 1 and len(e.generators[0].ifs) == 1:
+            c = e.generators[0].ifs[0]
+            if isinstance(c, ast.Compare) and len(c.ops) == 1 and isinstance(c.ops[0], ast.Eq) and isinstance(c.left, ast.Attribute) and c.left.attr == 'op':
+                return {consts.get(dotted(c.comparators[0]))}
+        return None
+
+    def implies_existing(fn, test, pol, defs, depth=0):
+        """does (test is pol) establish that an entry with a patch/removal op is present at the index, or that the index is in bounds?"""
+        if isinstance(test, ast.UnaryOp) and isinstance(test.op, ast.Not):
+            return implies_existing(fn, test.operand, not pol, defs, depth)
+        if isinstance(test, ast.Compare) and len(test.ops) == 1 and pol and isinstance(test.ops[0], ast.Lt) and \
+                isinstance(test.comparators[0], ast.Call) and dotted(test.comparators[0].func) == 'len':
+            return True
+        if isinstance(test, ast.BoolOp) and isinstance(test.op, ast.Or) and pol:
+            return all(implies_existing(fn, v, True, defs, depth) for v in test.values)
+        if isinstance(test, ast.BoolOp) and isinstance(test.op, ast.Or) and not pol:
+            return False
+        if isinstance(test, ast.BoolOp) and isinstance(test.op, ast.And) and pol:
+            return any(implies_existing(fn, v, True, defs, depth) for v in test.values)
+        # not all(e.op == ADDRANGE for e in ...)
+        if isinstance(test, ast.Call) and dotted(test.func) == 'all' and not pol and test.args and isinstance(test.args[0], (ast.GeneratorExp, ast.ListComp)):
+            elt = test.args[0].elt
+            if isinstance(elt, ast.Compare) and len(elt.ops) == 1 and isinstance(elt.ops[0], ast.Eq) and isinstance(elt.left, ast.Attribute) and elt.left.attr == 'op' and \
+                    consts.get(dotted(elt.comparators[0])) == ADD:
+                return True
+        if isinstance(test, ast.Call) and dotted(test.func) == 'any' and pol and test.args and isinstance(test.args[0], (ast.GeneratorExp, ast.ListComp)):
+            elt = test.args[0].elt
+            if isinstance(elt, ast.Compare) and len(elt.ops) == 1 and isinstance(elt.left, ast.Attribute) and elt.left.attr == 'op':
+                if isinstance(elt.ops[0], ast.NotEq) and consts.get(dotted(elt.comparators[0])) == ADD:
+                    return True
+                if isinstance(elt.ops[0], ast.In) and isinstance(elt.comparators[0], (ast.Tuple, ast.List, ast.Set)) and \
+                        {consts.get(dotted(x)) for x in elt.comparators[0].elts} <= EXIST:
+                    return True
+        # a (possibly negated) flag: resolve it
+        if isinstance(test, ast.Name):
+            ops = filt_ops(fn, test, defs)
+            if ops is not None:
+                return pol and ops <= EXIST
+            ds = defs.get(test.id, [])
+            if len(ds) == 1 and depth < 3:
+                v, k, st = ds[0]
+                if k == 'assign':
+                    return implies_existing(fn, v, pol, defs, depth + 1)
+                if k == 'unpack' and isinstance(v, ast.Call) and isinstance(st, ast.Assign) and isinstance(st.targets[0], ast.Tuple):
+                    # flag = i-th element of the tuple a package function returns
+                    idx = [i for i, t in enumerate(st.targets[0].elts) if isinstance(t, ast.Name) and t.id == test.id]
+                    tg = [t[1] for t in cg.resolve(v.func, fn) if t[0] == 'func' and t[1] in repo.functions]
+                    if idx and len(tg) == 1:
+                        h = repo.functions[tg[0]]
+                        hdefs = local_defs(h)
+                        rets = [r for r in walk_no_nested(h) if isinstance(r, ast.Return)]
+                        if rets and all(isinstance(r.value, ast.Tuple) and len(r.value.elts) > idx[0] for r in rets):
+                            return all(implies_existing(h, r.value.elts[idx[0]], pol, hdefs, depth + 1) for r in rets)
+            return False
+        return False
+    n = 0
+    for fid, fn in sorted(repo.functions.items()):
+        if not fid.startswith('nbdime.merging.strategies:'):
+            continue
+        defs = local_defs(fn)
+        g = None
+        for c in calls_in(fn, nested=False):
+            if ('func', 'nbdime.diff_format:op_removerange') not in cg.resolve(c.func, fn) or not c.args:
+                continue
+            k = c.args[0]
+            keyed = depends_on(fn, k, lambda x: (isinstance(x, ast.Attribute) and x.attr == 'key') or
+                               (isinstance(x, ast.Call) and (dotted(x.func) or '').endswith('bundle_decisions_by_index')), defs)
+            if keyed is None:
+                continue
+            n += 1
+            g = g or CFG(fn)
+            st = repo.stmt_of(c)
+            ev = [(t, pol) for t, pol in cond_guards(g, st) if implies_existing(fn, t, pol, defs)]
+            ok = bool(ev)
+            ctx.inst(rule, fid, repo.norm(c), ok,
+                     'guarded by %s%s' % ('' if ev[0][1] else 'not ', repo.norm(ev[0][0])[:80]) if ok else
+                     'the index comes from the decisions; an insertion at the end of the list has index len(base), and several insertions at one index are several entries: '
+                     'nothing on the way to this removal rules that out, so the custom diff removes an item past the end of its base (out of bounds: not a well-formed diff)', c)
+    if n == 0:
+        raise AnalysisError('R11.12: no hand-built removal keyed by a decision index found in the strategies module')
+
+
+@extra('C11', 'R11.13', 'a custom diff assembled by hand takes ready-made entries from at most ONE side\'s diff on any one path: both sides removing the same base range carry '
+       'the same removal, and two of them in one diff overlap', 2)
+def r11_13(ctx, rule):
+    from ..util import local_defs
+    from ..cfg import CFG
+    repo, cg = ctx.repo, ctx.cg
+    n = 0
+    for fid, fn in sorted(repo.functions.items()):
+        if not fid.startswith('nbdime.merging.strategies:'):
+            continue
+        defs = local_defs(fn)
+        g = None
+        for c in calls_in(fn, nested=False):
+            if not (isinstance(c.func, ast.Attribute) and c.func.attr == 'custom'):
+                continue
+            cd = c.args[3] if len(c.args) > 3 else next((k.value for k in c.keywords if k.arg == 'custom_diff'), None)
+            if cd is None:
+                continue
+            n += 1
+            # pieces: (expression, statement) that contribute entries to the list
+            pieces, seen = [], set()
+
+            def collect(e, st):
+                if isinstance(e, ast.BinOp) and isinstance(e.op, ast.Add):
+                    collect(e.left, st)
+                    collect(e.right, st)
+                elif isinstance(e, ast.Name) and e.id not in seen:
+                    seen.add(e.id)
+                    for v, k, s_ in defs.get(e.id, []):
+                        if k in ('assign', 'aug'):
+                            collect(v, s_)
+                    for x in walk_no_nested(fn):
+                        if isinstance(x, ast.Expr) and isinstance(x.value, ast.Call) and isinstance(x.value.func, ast.Attribute) and \
+                                x.value.func.attr in ('append', 'extend', 'insert') and dotted(x.value.func.value) == e.id and x.value.args:
+                            pieces.append((x.value.args[-1], x))
+                        if isinstance(x, ast.AugAssign) and isinstance(x.target, ast.Name) and x.target.id == e.id:
+                            collect(x.value, x)
+                else:
+                    pieces.append((e, st))
+            collect(cd, repo.stmt_of(c))
+
+            def side(e):
+                # ready-made entries of a side: a subscript/slice of <x>.local_diff / <x>.remote_diff (or of a local bound to one)
+                out = set()
+                for x in ast.walk(e):
+                    if isinstance(x, ast.Call):
+                        continue
+                    if isinstance(x, ast.Subscript):
+                        d = dotted(x.value) or ''
+                        if isinstance(x.value, ast.Name):
+                            for v, k, s_ in defs.get(x.value.id, []):
+                                d2 = dotted(v) or ''
+                                if d2.endswith('local_diff') or d2.endswith('remote_diff'):
+                                    d = d2
+                        if d.endswith('local_diff'):
+                            out.add('local')
+                        elif d.endswith('remote_diff'):
+                            out.add('remote')
+                return out
+            # entries wrapped in a constructor call (op_addrange(key, valuelist ...)) are new entries, not ready-made ones
+            sided = []
+            for e, st in pieces:
+                if isinstance(e, ast.List) and all(isinstance(x, ast.Call) for x in e.elts):
+                    continue
+                if isinstance(e, ast.Call):
+                    continue
+                for s_ in side(e):
+                    sided.append((s_, e, st))
+            both = {s_ for s_, e, st in sided} == {'local', 'remote'}
+            bad = None
+            if both:
+                g = g or CFG(fn)
+                for s1, e1, st1 in sided:
+                    for s2, e2, st2 in sided:
+                        if s1 == 'local' and s2 == 'remote':
+                            if st1 is st2:
+                                bad = (e1, e2, st1)
+                            else:
+                                # exclusive iff the two statements sit in different arms of one conditional
+                                excl = False
+                                for a in repo.ancestors(st1):
+                                    if isinstance(a, ast.If):
+                                        in_b = lambda s_, blk: any(s_ is x for b_ in blk for x in ast.walk(b_))
+                                        if (in_b(st1, a.body) and in_b(st2, a.orelse)) or (in_b(st1, a.orelse) and in_b(st2, a.body)):
+                                            excl = True
+                                if not excl:
+                                    bad = (e1, e2, st2)
+            ok = bad is None
+            ctx.inst(rule, fid, repo.norm(c)[:70], ok,
+                     'ready-made entries come from %s' % (sorted({s_ for s_, e, st in sided}) or 'neither side (all entries are built here)') if ok else
+                     'the custom diff takes entries from the local diff (%s) AND from the remote diff (%s) on one path: when both sides removed the same base range the '
+                     'diff holds two removals of it -- overlapping list operations' % (ast.unparse(bad[0]), ast.unparse(bad[1])), bad[2] if bad else c)
+    if n < 2:
+        raise AnalysisError('R11.13: fewer than two custom decisions found in the strategies module')
